@@ -1,6 +1,7 @@
 package main
 
 import (
+	"encoding/json"
 	"fmt"
 	"reflect"
 	"strings"
@@ -10,16 +11,21 @@ import (
 
 // C13: schema defaults are applied, never override data, never shared
 func runC13(cfg *hx.Config) {
-	rep := hx.NewReport("records with defaulted fields of primitive / enum / record / array / map type, declared directly (Dflt), nested (DOuter, Big.dflt) or inherited through included records (Incl, Incl2): " +
+	rep := hx.NewReport("records with defaulted fields of primitive / enum / record / array / map type, declared directly (Dflt), nested (DOuter, Big.dflt) or inherited through included records (Incl, Incl2), " +
+		"record-typed defaults whose literal is the empty object / a partial object / an object containing an empty object and whose record has defaults of its own (DEmp, DIn): " +
 		"documents obtained from a valid encoding by omitting every subset (<= 8 fields exhaustively, seeded otherwise) of the defaulted fields, decoded by the JSON, ROR2 and untyped readers; " +
-		"the generated New...WithDefaultValues constructors; freshness of default-populated arrays/maps across instances. non-trivial = at least one defaulted field omitted; distinct by (type, reader, document)")
+		"the generated New...WithDefaultValues constructors; freshness of default-populated arrays/maps across instances. " +
+		"TYPED stream (untyped reader only): the value with zero values (0, false, \"\") forced into primitive leaves, restricted to the top-level fields of one JSON kind, handed to the untyped reader as a " +
+		"map with a CONCRETE element type (map[string]int32 / int64 / float64 / bool / string / map[string]T / []T, nested maps and slices typed too): a present zero wins over the default, " +
+		"absent fields carry the default. non-trivial = at least one defaulted field omitted; distinct by (type, reader, document)")
 	sh := hx.NewShards(cfg.Out, header(), "CodecCorr", 40)
 	r := hx.NewRand(cfg.Seed)
 	n := 40
 	if cfg.Thorough() {
 		n = 800
 	}
-	for _, tname := range []string{"Dflt", "DOuter", "Incl", "Incl2", "Big", "DElems"} {
+	c13Types := []string{"Dflt", "DOuter", "Incl", "Incl2", "Big", "DElems", "DIn", "DEmp"}
+	for _, tname := range c13Types {
 		t := ref(tname)
 		for i := 0; i < n; i++ {
 			v := schema.gen(r, t, genOpts{utf8: true, depth: 2})
@@ -70,8 +76,57 @@ func runC13(cfg *hx.Config) {
 			sh.Add(c.coq(), c.describe())
 		}
 	}
+	// the untyped reader fed maps / slices with a concrete element type
+	for _, tname := range c13Types {
+		t := ref(tname)
+		for i := 0; i < n; i++ {
+			v0 := schema.gen(r, t, genOpts{utf8: true, depth: 2})
+			dropDefaults(schema, t, v0, r)
+			schema.zeroSome(r, v0, 35)
+			for _, kind := range []string{"num", "bool", "str", "obj", "arr"} {
+				v := schema.projectVal(tname, v0, kind)
+				base := schema.refEncode(t, v)
+				var miss []string
+				schema.missingSpec(t, base, "", &miss)
+				if len(base.Keys) == 0 || len(miss) > 0 || !base.jsonOK() {
+					continue // nothing of that kind, or a required field is of another kind
+				}
+				text := base.render(0, r, false)
+				var y interface{}
+				if err := json.Unmarshal([]byte(text), &y); err != nil {
+					continue
+				}
+				nconv := 0
+				x := typify(r, y, 85, &nconv)
+				if nconv == 0 {
+					continue
+				}
+				want := schema.fillDefaults(t, v)
+				wantGen := schema.fillDefaultsAsGenerated(t, v)
+				oc, got := decodeAnyX(tname, x, nil, 0)
+				rep.Evaluations++
+				rep.Count("reader=any(typed containers)")
+				rep.Count("typed-kind=" + kind)
+				desc := fmt.Sprintf("%#v", x)
+				rep.Distinct(tname+"typed"+desc, true)
+				cd := map[string]interface{}{"type": tname, "reader": "any", "value": desc, "document": text, "outcome": oc, "decoded": got.fixJSON(), "expected": want.fixJSON()}
+				site := "v2/restlicodec/any_reader.go:ReadMap"
+				switch {
+				case oc.Class != "ok":
+					rep.Fail("defaults:decode-"+oc.Class+":any", "a document omitting defaulted fields is not decoded", site, cd, oc.Text)
+				case !approxEq(got, want) && approxEq(got, wantGen):
+					rep.Fail("defaults:included-record-defaults-not-filled", "defaults declared in an included record are not applied", "v2/codegen/types/record.go:GeneratePopulateDefaultValues", cd, nil)
+				case !approxEq(got, want):
+					rep.Fail("defaults:wrong-value:any", "the untyped reader, given a map with a concrete element type, does not let a present value win over the default (or does not fill an absent one)", site, cd, nil)
+				}
+				if i < 1 {
+					rep.Sample(cd)
+				}
+			}
+		}
+	}
 	// freshness of DECODED instances: two instances decoded from the same document share nothing
-	for _, tname := range []string{"Dflt", "DOuter", "DElems"} {
+	for _, tname := range []string{"Dflt", "DOuter", "DElems", "DEmp"} {
 		t := ref(tname)
 		for _, doc := range []string{`{"r":1,"dn":{"r":2},"e":"RED"}`} {
 			for _, f := range []int{0} {
